@@ -374,7 +374,7 @@ func genNames(c *ctx) {
 	}
 
 	ncases := c.pick(1400, 14000)
-	nseries := c.pick(6, 40)
+	nseries := c.pick(10, 60)
 	nchain := c.pick(10, 60)
 	for ci := 0; ci < ncases; ci++ {
 		root := work
@@ -389,8 +389,44 @@ func genNames(c *ctx) {
 		// already holds name, name.0 .. name.(L-1): the counter of the fresh name goes far beyond 47
 		// and into two and three digits
 		chainName, chainLen := "", 0
+		chainMsgs, seriesGap, seriesFull := 0, -1, false
 		if ci < nseries {
-			kind = 1
+			// series cases: name, name.0 .. name.999 are ALL there (files, some of them directories), or all
+			// but one (the gap must be used); the messages ask for exactly that name: plain file, directory,
+			// path list below it.  Exhaustion must fail and touch nothing.
+			kind = 0
+			seriesFull = true
+			chainName = []string{"a", "f.txt", "%d", c09Long(251, 'J'), "d"}[ci%5]
+			if ci >= 4 { // the first four series of a run are complete, the others have exactly one gap
+				seriesGap = []int{0, 1, 9, 10, 99, 100, 998, 999, c.rng.Intn(1000)}[c.rng.Intn(9)]
+				if ci == 4 {
+					seriesGap = 999 // the last candidate is always tried in some case
+				} else if ci == 5 {
+					seriesGap = 0
+				}
+			}
+			chainMsgs = 2 + c.rng.Intn(3)
+			c.count("pre:full-series")
+			if seriesGap >= 0 {
+				c.count("pre:series-with-one-gap")
+			}
+			lastDir := c.rng.Intn(2) == 0
+			if c.rng.Intn(3) == 0 {
+				os.Mkdir(filepath.Join(dest, chainName), 0755)
+			} else {
+				os.WriteFile(filepath.Join(dest, chainName), []byte("series-base"), 0644)
+			}
+			for k := 0; k < 1000; k++ {
+				if k == seriesGap {
+					continue
+				}
+				p := filepath.Join(dest, chainName+"."+strconv.Itoa(k))
+				if (k == 999 && lastDir) || (k < 999 && c.rng.Intn(50) == 0) {
+					os.Mkdir(p, 0755)
+				} else {
+					os.WriteFile(p, []byte("s"), 0644)
+				}
+			}
 		} else if ci < nseries+nchain {
 			kind = 0
 			chainName = c09ChainNames[(ci-nseries)%len(c09ChainNames)]
@@ -436,7 +472,7 @@ func genNames(c *ctx) {
 		hostileCase := c.rng.Intn(3) == 0
 		if chainName != "" {
 			overwrite, hostileCase = false, false
-			if v3 {
+			if v3 && !seriesFull {
 				v3, proto = false, 2
 			}
 		}
@@ -445,6 +481,9 @@ func genNames(c *ctx) {
 		nm := 1 + c.rng.Intn(6)
 		if chainName != "" && chainLen == 0 {
 			nm = 52 + c.rng.Intn(14)
+		}
+		if chainMsgs > 0 {
+			nm = chainMsgs
 		}
 		var margs, results []string
 		var reported []string
@@ -460,7 +499,16 @@ func genNames(c *ctx) {
 			entry := v.HasArchive() && c.rng.Intn(3) > 0 && chainName == ""
 			var raw string
 			jsonMode := entry || directory || v3
-			if chainName != "" && jsonMode {
+			if chainName != "" && jsonMode && seriesFull {
+				switch c.rng.Intn(3) {
+				case 0:
+					raw = c07rJSON(mi, []string{chainName}, false, false, len(payload))
+				case 1:
+					raw = c07rJSON(mi, []string{chainName}, true, false, 0)
+				default:
+					raw = c07rJSON(mi, []string{chainName, "below.txt"}, false, false, len(payload))
+				}
+			} else if chainName != "" && jsonMode {
 				raw = c07rJSON(mi, []string{chainName}, false, false, len(payload))
 			} else if chainName != "" {
 				raw = chainName
@@ -484,6 +532,9 @@ func genNames(c *ctx) {
 			key := fmt.Sprintf("ow=%v,dir=%v,v3=%v,entry=%v,name=%s", overwrite, directory, v3, entry, hx([]byte(raw)))
 			if chainName != "" {
 				key = fmt.Sprintf("ow=%v,dir=%v,chain=%s,existing=%d,arrival=%d", overwrite, directory, hx([]byte(chainName)), chainLen, mi+1)
+				if seriesFull {
+					key = fmt.Sprintf("ow=%v,dir=%v,v3=%v,series=%s,gap=%d,arrival=%d,record=%s", overwrite, directory, v3, hx([]byte(chainName)), seriesGap, mi+1, hx([]byte(raw)))
+				}
 			}
 			switch {
 			case entry:
@@ -538,6 +589,12 @@ func genNames(c *ctx) {
 			results = append(results, res)
 
 			// ---- direct oracles, per message
+			if seriesFull && seriesGap >= 0 && mi == 0 && err != nil {
+				// the series has exactly one free candidate: the first arrival must get it
+				c09Violate(c, fmt.Sprintf("gap-unused:ow=%v,dir=%v,v3=%v,series=%s,gap=%d,record=%s", overwrite, directory, v3, hx([]byte(chainName)), seriesGap, hx([]byte(raw))),
+					"one candidate of name, name.0 .. name.999 is free and the name is refused",
+					fmt.Sprintf("series of %q complete except %q: record %q refused (%v)", chainName, chainName+"."+strconv.Itoa(seriesGap), raw, err))
+			}
 			// the fresh name is the requested name or name.N, N the first decimal counter whose
 			// candidate is not there (C07) - whatever bytes the name consists of
 			if !overwrite && err == nil && !entry {
@@ -700,9 +757,8 @@ func genNames(c *ctx) {
 			strings.Join(eff, ","), mid.listing(), strings.Join(dl, ";"), strings.Join(rm, ","), final.listing())
 		flags := c09B(overwrite) + c09B(directory) + c09B(v3) + c09B(chkU) + c09B(chkC) + c09B(del)
 		prearg := pre.listing()
-		if kind == 1 {
+		if seriesFull {
 			nontrivial = true
-			c.count("pre:full-series")
 		}
 		if len(cr) > 0 {
 			for _, r := range cr {
@@ -877,6 +933,9 @@ func c09FreshShape(cur c09Snap, want, local string) string {
 	}
 	if !blocked(want) {
 		return "the requested name was free"
+	}
+	if blocked(local) {
+		return "the chosen name existed already (an exhausted series must fail, never reuse)"
 	}
 	for j := 0; j < k; j++ {
 		if !blocked(want + "." + strconv.Itoa(j)) {
